@@ -365,6 +365,12 @@ class SkelWalker:
                 return (not val) if neg else val
         if isinstance(test, nodes.Const) and isinstance(test.value, bool):
             return (not test.value) if neg else test.value
+        if isinstance(test, (nodes.Getattr, nodes.Getitem)) or (isinstance(test, nodes.Name) and test.name in env):
+            # the truth of a text the template spells out (an entry of a literal dict, a variable bound to nothing but text): empty or not
+            t = SkelWalker._known_text(test, env)
+            if t is not None:
+                val = bool(t)
+                return (not val) if neg else val
         if isinstance(test, nodes.Getattr) and isinstance(test.node, nodes.Name) and test.node.name == "loop" and test.attr in ("first", "last"):
             # a round of a loop over a list whose items the template spells out: which round it is is known
             v = env.get("loop")
